@@ -331,6 +331,7 @@ func runC03(c *Ctx) {
 	}
 	// ---- alias
 	aliasRule(c, "C03.alias", []string{"cache", "path", "ctree", "value"})
+	resetExcl(c, "C03.reset-excl")
 	// ---- multi
 	{
 		e := &PPA{MaxVisits: 3, Watch: func(ev *Ev) bool { return isGU(ev) || isGR(ev) }}
